@@ -66,6 +66,8 @@ pub struct Inner {
     pub broker_target: Option<(usize, usize)>,
     /// id of the publication the broker is about to fan out (+1; 0 = unknown)
     pub broker_src: u64,
+    /// brokers whose topic has been announced
+    pub broker_topic_told: std::collections::HashSet<usize>,
 }
 
 #[derive(Clone, Default)]
@@ -311,6 +313,15 @@ impl verif::Backend for Exec {
         use crate::actor::Topic;
         let o = msg.downcast_ref::<Topic<1>>().map(|t| t.o).or_else(|| msg.downcast_ref::<Topic<2>>().map(|t| t.o)).flatten();
         self.0.borrow_mut().broker_src = o.map(|o| o as u64 + 1).unwrap_or(0);
+    }
+    fn broker_type(&self, ctx: u64, type_name: &'static str) {
+        // which topic this broker serves, announced once, before its first reported step
+        let b = self.aid_or_foreign(ctx);
+        let topic: u64 = if type_name.contains("Topic<1>") { 1 } else if type_name.contains("Topic<2>") { 2 } else { 0 };
+        let mut i = self.0.borrow_mut();
+        if i.broker_topic_told.insert(b) {
+            i.log.push(vec![crate::ev::BROKER, b as u64, 6, topic, 0]);
+        }
     }
     fn broker(&self, ctx: u64, what: &'static str, arg: u64) {
         use crate::ev;
